@@ -48,6 +48,27 @@ Theorem C13_convert_fails_on_unreadable_source :
 Proof. exact convert_fails_on_unreadable_source. Qed.
 Print Assumptions C13_convert_fails_on_unreadable_source.
 
+(* the same into a destination that is NOT empty: whatever chunks it held
+   before (an older generation of the dataset, a conversion with other
+   parameters), if the command succeeds every chunk of every scale it was asked
+   to produce reads back as the conversion of the source chunk *)
+Theorem C13_convert_pointwise_populated :
+  forall (V : Type) (f : V -> V) (sbytes dbytes : Type)
+         (sdecode : list N -> sbytes -> triple -> outcome (cchunk V))
+         (dencode : list N -> cchunk V -> outcome dbytes)
+         (ddecode : list N -> dbytes -> triple -> outcome (cchunk V)),
+  (forall k ch b, dencode k ch = Ok b -> ddecode k b (fst ch) = Ok ch) ->
+  (forall k b e ch, sdecode k b e = Ok ch -> fst ch = e) ->
+  forall sscales dscales src (dst0 : store dbytes) dst tr,
+  convert_chunks V f sbytes dbytes sdecode dencode sscales dscales src dst0 = Ok (dst, tr) ->
+  forall s cs c,
+  In s dscales -> In cs (sc_chunk_sizes s) -> In c (cgrid (sc_size s) cs) ->
+  exists ch,
+    read_chunk (cchunk V) sbytes sdecode sscales src (sc_key s) c = Ok ch /\
+    read_chunk (cchunk V) dbytes ddecode dscales dst (sc_key s) c = Ok (tmap V f ch).
+Proof. exact convert_pointwise_populated. Qed.
+Print Assumptions C13_convert_pointwise_populated.
+
 (* the destination grid walked by the command is the same set of chunks as
    the grid of the volume writer (another loop order) *)
 Theorem C13_grid_same_chunks : forall size cs c,
